@@ -449,7 +449,7 @@ func ruleNextBlock(c *Ctx, r *Rep, tier string) {
 		if !ok || (bo.Op != token.EQL && bo.Op != token.NEQ) {
 			return true
 		}
-		if !isInvokeOnField(insOf(bo.X), fCur, "Base") && !isInvokeOnField(insOf(bo.Y), fCur, "Base") {
+		if !isResultBase(c, insOf(bo.X), fCur) && !isResultBase(c, insOf(bo.Y), fCur) {
 			return true
 		}
 		k := 0
@@ -473,9 +473,9 @@ func ruleNextBlock(c *Ctx, r *Rep, tier string) {
 		if i := ifOf(b); i != nil {
 			if bo, ok := i.Cond.(*ssa.BinOp); ok && (bo.Op == token.EQL || bo.Op == token.NEQ) {
 				switch {
-				case isInvokeOnField(insOf(bo.X), fCur, "Base"):
+				case isResultBase(c, insOf(bo.X), fCur):
 					want = bo.Y
-				case isInvokeOnField(insOf(bo.Y), fCur, "Base"):
+				case isResultBase(c, insOf(bo.Y), fCur):
 					want = bo.X
 				}
 			}
